@@ -284,7 +284,7 @@ hawk_ooi_t hawk_tio_flush (hawk_tio_t* tio)
 		{
 			if (cur != tio->out.buf.ptr)
 			{
-				HAWK_MEMCPY (tio->out.buf.ptr, cur, left);
+				HAWK_MEMMOVE (tio->out.buf.ptr, cur, left); /* the unwritten part is moved within the same buffer. the ranges can overlap */
 				tio->outbuf_len = left;
 			}
 			return -1;
@@ -292,7 +292,7 @@ hawk_ooi_t hawk_tio_flush (hawk_tio_t* tio)
 		if (n == 0)
 		{
 			if (cur != tio->out.buf.ptr)
-				HAWK_MEMCPY (tio->out.buf.ptr, cur, left);
+				HAWK_MEMMOVE (tio->out.buf.ptr, cur, left); /* the unwritten part is moved within the same buffer. the ranges can overlap */
 			break;
 		}
 
